@@ -1,12 +1,14 @@
-\* C17: lexer state machine, every input of length <= 6 over the 16 lexer-significant characters
+\* C17 thorough: lexer state machine + outcomes, EVERY input of length <= 5 over the
+\* 16 lexer-significant characters  a 1 . space + - : " ^ ~ \ > < = * /   (1 118 481 inputs)
 SPECIFICATION Spec
 CONSTANT Alphabet = {97, 49, 46, 32, 43, 45, 58, 34, 94, 126, 92, 62, 60, 61, 42, 47}
-CONSTANT MaxLen = 6
+CONSTANT MaxLen = 5
+CONSTANT BatchLen = 3
 CONSTANT ValidDates = {}
 INVARIANT NeverStuck
 INVARIANT ErrorsOnlyAtEOF
 INVARIANT IncrementalIsBatch
 INVARIANT TokenShapes
 INVARIANT BufDiscipline
-INVARIANT NoInvention
+INVARIANT OutcomeShape
 CHECK_DEADLOCK FALSE
